@@ -91,7 +91,7 @@ def eval_call(I: Interp, node: ast.Call, fr: Frame):
             if "result" in fr.locals:
                 sf.locals.setdefault("result", fr.locals["result"])
             top = st.cfg.get("contract")
-            revealed = (not sp.opaque) or (top is not None and n in top.reveal)
+            revealed = (not sp.opaque) or (top is not None and n in top.reveal) or bool(st.cfg.get("ground"))
             app = None
             if sp.opaque:
                 from .smt import Val
@@ -206,6 +206,25 @@ def quantifier(I: Interp, node, fr, which):
         if which == "forall":
             return I.as_bool_sv(z3.And(*parts) if parts else z3.BoolVal(True))
         return I.as_bool_sv(z3.Or(*parts) if parts else z3.BoolVal(False))
+    K = st.cfg.get("ground")
+    if K:
+        # refutation mode: search only states where this range has at most K elements, expand the quantifier
+        st.assume(hi - lo <= K)
+        parts = []
+        for c in range(K):
+            qf = Frame(fr.module, fr.cls, fr.selfv, fr.finfo, fr, fr.contract)
+            at = smt.simp(lo + c)
+            qf.locals[name] = SV(smt.mk_int(at), T.INT)
+            g = at < hi
+            st.guards.append(g)
+            st.spec_depth += 1
+            try:
+                b = I.truthy(I.ev(node.args[3], qf))
+            finally:
+                st.spec_depth -= 1
+                st.guards.pop()
+            parts.append(z3.Implies(g, b) if which == "forall" else z3.And(g, b))
+        return I.as_bool_sv(z3.And(*parts) if which == "forall" else z3.Or(*parts))
     st.n_fresh += 1
     iv = z3.Int(f"{name}!q{st.n_fresh}")
     qf = Frame(fr.module, fr.cls, fr.selfv, fr.finfo, fr, fr.contract)
@@ -231,6 +250,31 @@ def quantifier_obj(I: Interp, node, fr, which):
     cls = I.ev(node.args[1], fr)
     if not isinstance(cls, PClass):
         raise Refuse("forall_obj: class expected")
+    if st.cfg.get("ground"):
+        parts = []
+        seen = set()
+        for term, ci in list(st.objs):
+            if not (ci.is_subclass_of(cls.ci) or cls.ci.is_subclass_of(ci)):
+                continue
+            key = term.get_id()
+            if key in seen:
+                continue
+            seen.add(key)
+            rr = smt.rid(term)
+            g = z3.And(smt.is_ref(term), rr > 0, rr < st.alloc, st.subclass_pred(z3.Select(st.arr("cls"), rr), cls.ci))
+            qf = Frame(fr.module, fr.cls, fr.selfv, fr.finfo, fr, fr.contract)
+            qf.locals[name] = SV(term, T.OBJ(cls.ci))
+            st.guards.append(g)
+            st.spec_depth += 1
+            try:
+                b = I.truthy(I.ev(node.args[2], qf))
+            finally:
+                st.spec_depth -= 1
+                st.guards.pop()
+            parts.append(z3.Implies(g, b) if which == "forall_obj" else z3.And(g, b))
+        if which == "forall_obj":
+            return I.as_bool_sv(z3.And(*parts) if parts else z3.BoolVal(True))
+        return I.as_bool_sv(z3.Or(*parts) if parts else z3.BoolVal(False))
     st.n_fresh += 1
     rv = z3.Int(f"{name}!o{st.n_fresh}")
     qf = Frame(fr.module, fr.cls, fr.selfv, fr.finfo, fr, fr.contract)
